@@ -207,19 +207,19 @@ func c14Body(o c14Opts) func() {
 		}
 		switch o.closer {
 		case "client":
-			ths = append(ths, vrt.GoProc("closer", 1, func() { vrt.AnyMoment(); p.c.Close() }))
+			ths = append(ths, vrt.GoLazy("closer", 1, func() { p.c.Close() }))
 		case "server":
 			victim = p.s
-			ths = append(ths, vrt.GoProc("closer", 2, func() { vrt.AnyMoment(); p.s.Close() }))
+			ths = append(ths, vrt.GoLazy("closer", 2, func() { p.s.Close() }))
 		case "both":
-			ths = append(ths, vrt.GoProc("closer-c", 1, func() { vrt.AnyMoment(); p.c.Close() }), vrt.GoProc("closer-s", 2, func() { vrt.AnyMoment(); p.s.Close() }))
+			ths = append(ths, vrt.GoLazy("closer-c", 1, func() { p.c.Close() }), vrt.GoLazy("closer-s", 2, func() { p.s.Close() }))
 		case "double-client":
-			ths = append(ths, vrt.GoProc("closer1", 1, func() { vrt.AnyMoment(); p.c.Close() }), vrt.GoProc("closer2", 1, func() { vrt.AnyMoment(); p.c.Close(); p.c.Close() }))
+			ths = append(ths, vrt.GoLazy("closer1", 1, func() { p.c.Close() }), vrt.GoLazy("closer2", 1, func() { p.c.Close(); p.c.Close() }))
 		case "kill-server":
-			ths = append(ths, vrt.GoProc("killer", 0, func() { vrt.AnyMoment(); p.killProc(2) }))
+			ths = append(ths, vrt.GoLazy("killer", 0, func() { p.killProc(2) }))
 		case "kill-client":
 			victim = p.s
-			ths = append(ths, vrt.GoProc("killer", 0, func() { vrt.AnyMoment(); p.killProc(1) }))
+			ths = append(ths, vrt.GoLazy("killer", 0, func() { p.killProc(1) }))
 		}
 		vrt.WaitThreads(ths...)
 		vrt.WaitIdle(2 * vrt.Second)
@@ -298,5 +298,12 @@ func TestVerif_C14(t *testing.T) {
 		mk(c14Opts{name: "metrics-vs-close", work: "metrics", closer: "client"}, 1, 2),
 		mk(c14Opts{name: "flush-full-queue-vs-close", work: "flush-full-queue", closer: "client", queueCap: 1, stallPeer: true}, 2, 3),
 		mk(c14Opts{name: "flush-full-queue-vs-kill-server", work: "flush-full-queue", closer: "kill-server", queueCap: 1, stallPeer: true}, 1, 2),
+		// mid-handshake (the environment and oracles of C12's failure enumeration: the peer process stops, and the
+		// kernel closes its descriptors, at any scheduling point of the real newSession exchange; the survivor returns
+		// in time and holds no descriptor, mapping, table entry or file afterwards)
+		{Name: "handshake-memfd-client-dies", Bound: 1, BoundT: 2, Body: c12Body(c12Opts{kill: 1, closed: true}), Live: true},
+		{Name: "handshake-memfd-server-dies", Bound: 1, BoundT: 2, Body: c12Body(c12Opts{kill: 2, closed: true}), Live: true},
+		{Name: "handshake-file-client-dies", Bound: 1, BoundT: 2, Body: c12Body(c12Opts{file: true, kill: 1, closed: true}), Live: true},
+		{Name: "handshake-file-server-dies", Bound: 1, BoundT: 2, Body: c12Body(c12Opts{file: true, kill: 2, closed: true}), Live: true},
 	})
 }
